@@ -1,8 +1,11 @@
 package checks
 
 import (
+	"bytes"
 	"encoding/json"
 	"fmt"
+	"math"
+	"reflect"
 	"regexp"
 	"strconv"
 	"strings"
@@ -65,6 +68,9 @@ func ysonValueRoundTrip(obj yson.Object) string {
 	if s2 != s {
 		return fmt.Sprintf("parse(marshal(y)) != y\n  y:      %s\n  parsed: %s", s, s2)
 	}
+	if !ysonSame(obj, parsed) {
+		return fmt.Sprintf("parse(marshal(y)) differs from y in value (the texts agree: Marshal itself is lossy)\n  text: %s", truncateStr(s, 300))
+	}
 	// value -> new document -> value (what packs.Compact does and compares)
 	for _, src := range []yson.Object{obj, parsed} {
 		nd := document.New(key.Key("c18-doc"))
@@ -93,6 +99,9 @@ func ysonValueRoundTrip(obj yson.Object) string {
 		}
 		if s3 != s {
 			return fmt.Sprintf("FromCRDT(SetYSON(y)) != y\n  y:   %s\n  new: %s", s, s3)
+		}
+		if !ysonSame(obj, y3) {
+			return fmt.Sprintf("FromCRDT(SetYSON(y)) differs from y in value (the texts agree)\n  text: %s", truncateStr(s, 300))
 		}
 		if a, b := nd.Root().Marshal(), nd.Marshal(); a != b {
 			return fmt.Sprintf("Root() != Marshal() on the rebuilt document\n  %s\n  %s", a, b)
@@ -165,10 +174,97 @@ func ysonClass(v any) string {
 
 // ---------------------------------------------------------------- grammar
 
+var c18Tenth2 = 0.2 // a variable: 0.1 + c18Tenth2 is computed at run time (0.30000000000000004)
+
+// ysonSame compares two YSON values exactly (floats bit by bit, byte slices,
+// times, nested containers): comparing the texts they marshal to is blind to a
+// lossy Marshal, which loses the same digits on both sides.
+func ysonSame(a, b any) bool {
+	switch x := a.(type) {
+	case float64:
+		y, ok := b.(float64)
+		return ok && math.Float64bits(x) == math.Float64bits(y)
+	case yson.Object:
+		y, ok := b.(yson.Object)
+		if !ok || len(x) != len(y) {
+			return false
+		}
+		for k, v := range x {
+			w, ok := y[k]
+			if !ok || !ysonSame(v, w) {
+				return false
+			}
+		}
+		return true
+	case yson.Array:
+		y, ok := b.(yson.Array)
+		if !ok || len(x) != len(y) {
+			return false
+		}
+		for i := range x {
+			if !ysonSame(x[i], y[i]) {
+				return false
+			}
+		}
+		return true
+	case yson.Counter:
+		y, ok := b.(yson.Counter)
+		return ok && x.Type == y.Type && ysonSame(x.Value, y.Value) && bytes.Equal(x.Registers, y.Registers)
+	case yson.Text:
+		y, ok := b.(yson.Text)
+		if !ok || len(x.Nodes) != len(y.Nodes) {
+			return false
+		}
+		for i := range x.Nodes {
+			if x.Nodes[i].Value != y.Nodes[i].Value || !sameAttrs(x.Nodes[i].Attributes, y.Nodes[i].Attributes) {
+				return false
+			}
+		}
+		return true
+	case yson.Tree:
+		y, ok := b.(yson.Tree)
+		return ok && sameTreeNode(x.Root, y.Root)
+	case []byte:
+		y, ok := b.([]byte)
+		return ok && bytes.Equal(x, y)
+	case time.Time:
+		y, ok := b.(time.Time)
+		return ok && x.Equal(y)
+	}
+	return reflect.DeepEqual(a, b)
+}
+
+func sameAttrs(a, b map[string]string) bool {
+	if len(a) != len(b) {
+		return false
+	}
+	for k, v := range a {
+		if w, ok := b[k]; !ok || w != v {
+			return false
+		}
+	}
+	return true
+}
+
+func sameTreeNode(a, b yson.TreeNode) bool {
+	if a.Type != b.Type || a.Value != b.Value || !sameAttrs(a.Attributes, b.Attributes) || len(a.Children) != len(b.Children) {
+		return false
+	}
+	for i := range a.Children {
+		if !sameTreeNode(a.Children[i], b.Children[i]) {
+			return false
+		}
+	}
+	return true
+}
+
 func c18Leaves() []any {
 	ts, _ := time.Parse(time.RFC3339Nano, "2026-01-02T03:04:05.123456789Z")
 	return []any{
-		nil, true, false, 1.5, float64(0), float64(-3), "", "plain", "q\"uo\\te\nnl\ttab", "유니코드😀", "Int(5)", `{"type":"Counter"}`, "a) b", "(",
+		nil, true, false, 1.5, float64(0), float64(-3),
+		// doubles whose shortest decimal form needs 16-17 significant digits, and the extremes
+		0.1 + c18Tenth2, math.Pi, float64(1 << 53), math.MaxFloat64, -math.MaxFloat64, math.SmallestNonzeroFloat64,
+		"", "plain", "q\"uo\\te\nnl\ttab", "유니코드😀", "Int(5)", `{"type":"Counter"}`, "a) b", "(",
 		int32(7), int32(-2147483648), int64(1) << 40, int64(-9), []byte{}, []byte{0, 1, 255}, ts,
 	}
 }
